@@ -1,6 +1,6 @@
 //! Seeded random Rust values of every type that crosses the bridge (direction (b) of C10: what
 //! Rust writes must be readable under the traced schema).
-use super::apps::{kvapp, zoo};
+use super::apps::{kvapp, malapp, zoo};
 use super::schema::{rand_bytes, rand_char, rand_len, rand_string};
 use crux_http::protocol::{HttpHeader, HttpRequest, HttpResponse, HttpResult};
 use crux_http::HttpError;
@@ -193,3 +193,67 @@ impl Arb for zoo::EffectFfi { fn arb(r: &mut Rng) -> Self { zoo::EffectFfi::Rend
 impl Arb for zoo::Wrapper { fn arb(r: &mut Rng) -> Self { zoo::Wrapper(u64x(r)) } }
 impl Arb for zoo::UnitStruct { fn arb(_: &mut Rng) -> Self { zoo::UnitStruct } }
 impl Arb for zoo::TupleStruct { fn arb(r: &mut Rng) -> Self { zoo::TupleStruct(Arb::arb(r), Arb::arb(r)) } }
+
+// ---- malapp
+impl Arb for malapp::AskOp { fn arb(r: &mut Rng) -> Self { malapp::AskOp { tag: Arb::arb(r), text: Arb::arb(r) } } }
+impl Arb for malapp::WatchOp { fn arb(r: &mut Rng) -> Self { malapp::WatchOp { tag: Arb::arb(r) } } }
+impl Arb for malapp::Item { fn arb(r: &mut Rng) -> Self { malapp::Item { name: Arb::arb(r), data: Blob::arb(r).0, weight: Arb::arb(r) } } }
+impl Arb for malapp::Answer {
+    fn arb(r: &mut Rng) -> Self {
+        match r.below(4) { 0 => malapp::Answer::Empty, 1 => malapp::Answer::Code(Arb::arb(r)), 2 => malapp::Answer::Items { items: Arb::arb(r), note: Arb::arb(r) }, _ => malapp::Answer::Pair(u64x(r), Arb::arb(r)) }
+    }
+}
+impl Arb for malapp::Tick { fn arb(r: &mut Rng) -> Self { malapp::Tick { seq: u64x(r), label: Arb::arb(r) } } }
+impl Arb for malapp::MalEvent {
+    fn arb(r: &mut Rng) -> Self {
+        match r.below(6) {
+            0 | 1 => malapp::MalEvent::Ask { tag: Arb::arb(r), text: Arb::arb(r) },
+            2 => malapp::MalEvent::Watch { tag: Arb::arb(r) },
+            3 | 4 => malapp::MalEvent::Note { text: Arb::arb(r), blob: Blob::arb(r).0, nums: Arb::arb(r), flag: Arb::arb(r) },
+            _ => malapp::MalEvent::Render,
+        }
+    }
+}
+impl Arb for malapp::Line {
+    fn arb(r: &mut Rng) -> Self {
+        match r.below(5) {
+            0 => malapp::Line::Asked(Arb::arb(r)), 1 => malapp::Line::Watching(Arb::arb(r)),
+            2 => malapp::Line::Noted { text: Arb::arb(r), size: u64x(r), sum: u64x(r), flag: Arb::arb(r) },
+            3 => malapp::Line::Got(Arb::arb(r), Arb::arb(r)), _ => malapp::Line::Tick(Arb::arb(r), Arb::arb(r)),
+        }
+    }
+}
+impl Arb for malapp::MalView { fn arb(r: &mut Rng) -> Self { malapp::MalView { lines: Arb::arb(r) } } }
+impl Arb for malapp::EffectFfi {
+    fn arb(r: &mut Rng) -> Self { match r.below(3) { 0 => malapp::EffectFfi::Ask(Arb::arb(r)), 1 => malapp::EffectFfi::Render(Arb::arb(r)), _ => malapp::EffectFfi::Watch(Arb::arb(r)) } }
+}
+
+// ---- responses a well-behaved shell would give
+pub fn kv_response(r: &mut Rng, op: &crux_kv::KeyValueOperation) -> crux_kv::KeyValueResult {
+    use crux_kv::{value::Value, KeyValueOperation as O, KeyValueResponse as R, KeyValueResult};
+    if r.coin(1, 5) { return KeyValueResult::Err { error: Arb::arb(r) }; }
+    let response = match op {
+        O::Get { .. } => R::Get { value: Value::arb(r) },
+        O::Set { .. } => R::Set { previous: Value::arb(r) },
+        O::Delete { .. } => R::Delete { previous: Value::arb(r) },
+        O::Exists { .. } => R::Exists { is_present: Arb::arb(r) },
+        O::ListKeys { .. } => R::ListKeys { keys: Arb::arb(r), next_cursor: Arb::arb(r) },
+    };
+    KeyValueResult::Ok { response }
+}
+pub fn http_response(r: &mut Rng) -> crux_http::protocol::HttpResult {
+    use crux_http::protocol::{HttpHeader, HttpResponse, HttpResult};
+    if r.coin(1, 4) { return HttpResult::Err(Arb::arb(r)); }
+    let status = *r.pick(&[200u16, 201, 204, 301, 400, 404, 500, 503]);
+    let headers = (0..r.below(3)).map(|i| HttpHeader { name: format!("x-h{}", i), value: format!("v{}", r.below(100)) }).collect();
+    HttpResult::Ok(HttpResponse { status, headers, body: Blob::arb(r).0 })
+}
+
+pub fn time_response(r: &mut Rng, t: &crux_time::TimeRequest) -> crux_time::TimeResponse {
+    match t {
+        crux_time::TimeRequest::Now => crux_time::TimeResponse::Now { instant: Arb::arb(r) },
+        crux_time::TimeRequest::NotifyAfter { id, .. } => crux_time::TimeResponse::DurationElapsed { id: *id },
+        crux_time::TimeRequest::NotifyAt { id, .. } => crux_time::TimeResponse::InstantArrived { id: *id },
+        crux_time::TimeRequest::Clear { id } => crux_time::TimeResponse::Cleared { id: *id },
+    }
+}
